@@ -336,12 +336,21 @@ type hostFacts struct {
 	basicChallenged             bool
 }
 
+// F39: a grant is what was asked of the token server, read by the documented grammar; a token server cannot
+// be asked for "everything" (there is no such scope text), so no grant is unlimited: a request for the literal
+// "*" is a grant for the opaque word "*" and covers no resource scope. Only the configured access token
+// (hostFacts.access) is good for every scope.
 type grantInfo struct {
 	call      int // index among the calls
 	now       int
 	life      int // seconds
 	scopeText string
-	unlimited bool
+}
+
+// covers: the grant's scope text names every resource scope of the required scope. An unlimited required
+// scope is covered by no grant.
+func (g grantInfo) covers(required scopeSet, requiredUnlimited bool) bool {
+	return !requiredUnlimited && required.subsetOf(naiveScope(g.scopeText))
 }
 
 func unescapeBackslashes(s string) string {
@@ -419,7 +428,6 @@ func (o *authOracle) want(p string) bool { return o.prop == p }
 // tokens now belong to the call's host.
 func (o *authOracle) noteGrants(k int, c *obsCall) {
 	f := o.host(c.req.host)
-	_, wantUnl := scopeTokText(c.req.want)
 	for i := range c.msgs {
 		m := &c.msgs[i]
 		if m.kind == 'R' || m.reply == nil || m.reply.kind != 'j' {
@@ -433,7 +441,7 @@ func (o *authOracle) noteGrants(k int, c *obsCall) {
 		if life == 0 {
 			life = 60
 		}
-		g := grantInfo{call: k, now: c.req.now, life: life, scopeText: m.scope, unlimited: wantUnl && m.scope == "*"}
+		g := grantInfo{call: k, now: c.req.now, life: life, scopeText: m.scope}
 		for _, t := range []string{r.token, r.access} {
 			if t != "" {
 				f.grants[t] = append(f.grants[t], g)
@@ -457,8 +465,11 @@ func (o *authOracle) check(k int, c *obsCall) {
 	}
 	a := c.req
 	h := o.host(a.host)
-	reqText, _ := scopeTokText(a.required)
-	wantText, wantUnl := scopeTokText(a.want)
+	// F39: an unlimited required or desired scope has no text: it contributes no resource scope to what a token
+	// request must name (the request still names the challenge scope and the limited ones), and an unlimited
+	// required scope is covered only by the configured access token.
+	reqText, reqUnl := scopeTokText(a.required)
+	wantText, _ := scopeTokText(a.want)
 	required := naiveScope(reqText)
 
 	// the cache as the statement sees it, at the start of the call
@@ -470,7 +481,7 @@ func (o *authOracle) check(k int, c *obsCall) {
 	if o.ordered {
 		for name, gs := range h.grants {
 			for _, g := range gs {
-				if g.now+g.life*1000 >= a.now+1000 && (g.unlimited || required.subsetOf(naiveScope(g.scopeText))) {
+				if g.now+g.life*1000 >= a.now+1000 && g.covers(required, reqUnl) {
 					alive = append(alive, cached{name, g})
 				}
 			}
@@ -527,7 +538,7 @@ func (o *authOracle) check(k int, c *obsCall) {
 					if g.call == k || a.now < g.now+g.life*1000 {
 						fresh = true
 					}
-					if g.unlimited || required.subsetOf(naiveScope(g.scopeText)) {
+					if g.covers(required, reqUnl) {
 						covering = true
 					}
 				}
@@ -537,12 +548,13 @@ func (o *authOracle) check(k int, c *obsCall) {
 				if !inThisCall && !covering {
 					o.fail(idx, "auth-bearer-not-covering", "cached_bearer_covers_required_scope", "scope ⊇ "+reqText, m.bearer)
 				}
-				if inThisCall && regs == 1 && !wantUnl {
+				if inThisCall && regs == 1 && !reqUnl {
 					// acquired before the first attempt (no challenge in this call yet): it was asked
 					// for on behalf of this request, so it has to cover what the request requires
+					// (F39: whatever the desired scope; an unlimited required scope cannot be asked for)
 					ok := false
 					for _, g := range usable {
-						if g.call == k && (g.unlimited || required.subsetOf(naiveScope(g.scopeText))) {
+						if g.call == k && g.covers(required, false) {
 							ok = true
 						}
 					}
@@ -551,11 +563,11 @@ func (o *authOracle) check(k int, c *obsCall) {
 						fail(idx, "auth-preemptive-bearer-not-covering", "preemptive_bearer_covers_required_scope", "scope ⊇ "+reqText, m.bearer)
 					}
 				}
-				if inThisCall && regs == 2 && chal != nil && chal.scheme == "bearer" && !wantUnl {
+				if inThisCall && regs == 2 && chal != nil && chal.scheme == "bearer" {
 					cs := naiveScope(chal.params["scope"])
 					ok := false
 					for _, g := range usable {
-						if g.call == k && (g.unlimited || cs.subsetOf(naiveScope(g.scopeText))) {
+						if g.call == k && g.covers(cs, false) {
 							ok = true
 						}
 					}
@@ -565,7 +577,10 @@ func (o *authOracle) check(k int, c *obsCall) {
 				}
 			}
 		}
-		if o.want("C10") && o.ordered && m.kind != 'R' && m.phase == 1 && m.attempt == 0 && chal != nil && chal.scheme == "bearer" && !wantUnl {
+		if o.want("C10") && o.ordered && m.kind != 'R' && m.phase == 1 && m.attempt == 0 && chal != nil && chal.scheme == "bearer" {
+			// F39: demanded for every desired and required scope, unlimited ones included: the request names the
+			// challenge scope and the (limited) required and desired scopes, and nothing else; in particular it is
+			// never the literal "*", which names none of them
 			cs := naiveScope(chal.params["scope"])
 			extra := required.union(naiveScope(wantText))
 			wantSet := cs.union(extra)
